@@ -193,7 +193,16 @@ def run(ck, F, E):
     ud = get_fn(ck, F, "ExpressionEvaluator::evaluate_user_defined_function_call")
     if ud is not None:
         pushes = ud.calls_to("Program::push_function_call_onto_stack_and_goto_it")
-        pops = ud.calls_to("Program::pop_function_call_off_stack_and_return_from_it")
+        # any Program method that takes one frame off Program.stack (pop with or without returning to the caller's location)
+        from props import C16
+        poppers = set()
+        for pb in F.bodies.values():
+            if pb.crate == "abasic_core" and pb.self_adt == C16.PROGRAM:
+                if any(c.callee.endswith("Vec::pop") and C16.receiver_field(pb, c) == (C16.PROGRAM, "stack") for c in pb.calls()) and \
+                        not any(c.callee.endswith("Vec::push") and C16.receiver_field(pb, c) == (C16.PROGRAM, "stack") for c in pb.calls()):
+                    poppers.add(pb.path)
+        ck.note("C07.frame_poppers", sorted(poppers))
+        pops = [c for c in ud.calls() if c.callee in poppers]
         ck.require(len(pushes) == 1 and len(pops) >= 1, "C07:PAIR:sites", "frame pairing", "one push, one pop",
                    "expected one push/pop pair in evaluate_user_defined_function_call (push %d, pop %d)" % (len(pushes), len(pops)), ud.span)
         if len(pushes) == 1 and pops:
